@@ -524,6 +524,9 @@ func parsimCheck(e *Env, prop, mode string, plan parsimPlan) (int, error) {
 		cov["inputs_accepted"] = agg.Stats["accepted"]
 		cov["inputs_rejected"] = agg.Stats["rejected"]
 		cov["reference_steps_total"] = agg.Stats["ref_steps"]
+		cov["boundary_sweeps"] = agg.Stats["boundary_sweeps"]
+		cov["boundary_sweep_inputs"] = agg.Stats["boundary_sweep_inputs"]
+		cov["boundary_sweep_note"] = "1 case in 300 is a boundary sweep: a repeatable unit is measured and every repetition count in a 40-wide window around the count at which the token total reaches 256, 1024, 4096, 8192 or 32768 (sometimes with Size set to that value) is run through the same comparison, so that every alignment of a multi-token write against a buffer boundary occurs"
 		cov["reuse_histories"] = agg.Stats["reuse_histories"]
 		cov["reuse_history_steps"] = agg.Stats["reuse_history_steps"]
 		cov["reuse_note"] = "1 case in 20 runs a memoising and a non-memoising instance side by side through a Reset history (2-10 steps); long histories of 513 and 131 073 steps whose rare inputs recur at multiples of 256 and 65 536 steps are part of the sweep"
@@ -533,6 +536,8 @@ func parsimCheck(e *Env, prop, mode string, plan parsimPlan) (int, error) {
 		cov["rule"] = "one evaluation = one history (2–12 steps of Buffer=…; Reset(); Parse(); optional Execute/AST/print) on one long-lived instance with knobs Size/U/memo drawn per instance, each non-aborted step compared with a freshly constructed default instance given that input alone; odd run numbers inject aborts (panic in the n-th predicate/action callback, recovered by the client); non-trivial = the history contains an abort, a fail→success or success→fail transition or a shrinking input; distinct = digest of (parser, knobs, inputs, abort positions)"
 		cov["fault_kinds_fired"] = sumPrefix(agg.Stats, "fault_")
 		cov["probes"] = sumPrefix(agg.Stats, "probe_")
+		cov["boundary_sweeps"] = agg.Stats["boundary_sweeps"]
+		cov["boundary_sweep_inputs"] = agg.Stats["boundary_sweep_inputs"]
 		cov["marathon_histories"] = agg.Stats["marathon_histories"]
 		cov["marathon_steps"] = agg.Stats["marathon_steps"]
 		cov["marathon_note"] = "histories of 131 073 steps on one uint16 instance (rare inputs every 65 536 steps, a short filler in between), compared with fresh parsers at the rare steps and at samples: probes everything that counts operations in a value of type U"
